@@ -167,23 +167,30 @@ theorem C12_query_limit (rr : RowReader) (fs : RemoteReader) (db : Nat) (t : Tab
             omega
           · rw [if_neg h1]
 
-/-! ### on the file tree of a cluster -/
+/-! ### on the file tree of a cluster
+
+The theorems below speak about `Spec.fsOf c` for clusters outside the cluster-level classes of the open findings of C01 that
+concern WHERE the files lie and what the catalog rows mean: `hplain : c.Plain` (C01-SEG, C01-TBLSPC incl. the database's default
+tablespace), `hid : c.IdentityMapped` (C01-MAPPED: the client reads `global/1262`, `base/<db>/1259`, `base/<db>/1249` by name and
+never consults `pg_filenode.map`, like DumpDataDir), `hnm : c.NoFastDefaults` (C01-MISSINGVAL).  All access paths share these
+defects (they agree with each other there — in being wrong), so they are carve-outs of the statements against the Spec, not
+differences between the paths. -/
 
 /-- the hypotheses of `C01_dump` at default options, in the form the remote theorems use them -/
 theorem remoteDumpable_of_C01 (c : Cluster)
     (hdump : ∀ db ∈ c.dbs.live, Spec.selectedDb {} db = true → ∀ d, c.content.lookup db.oid = some d →
-      DbDumpable c.layout d {} ∧ Spec.A02Free d {}) :
+      DbDumpable c.layout d {} ∧ Spec.A02Free d {}) (hnm : c.NoFastDefaults) :
     ∀ db ∈ c.dbs.live, db.isTemplate = false → ∀ d, c.content.lookup db.oid = some d → RemoteDumpable d := by
   intro db hdb ht d hd
-  exact remoteDumpable_of c.layout d (hdump db hdb (by simp [Spec.selectedDb, ht]) d hd)
+  exact remoteDumpable_of c.layout d (hdump db hdb (by simp [Spec.selectedDb, ht]) d hd) (hnm (db.oid, d) (lookup_mem_pair _ _ _ hd))
 
 /-- **Databases.**  On the tree of a well-formed cluster a client lists every live database (template or not) with its oid
 and name, in pg_database order — the list DumpDataDir walks. -/
-theorem C12_remote_databases (dec : Dec) (hd : CatDec dec) (c : Cluster) (hwf : c.WF) (hplain : c.Plain) (c0 : Cache)
+theorem C12_remote_databases (dec : Dec) (hd : CatDec dec) (c : Cluster) (hwf : c.WF) (hplain : c.Plain) (hid : c.IdentityMapped) (hnm : c.NoFastDefaults) (c0 : Cache)
     (hc : CacheOK (readRows dec) (Spec.fsOf c) c0) :
     ∃ c', rcDatabases (readRows dec) (Spec.fsOf c) c0 = .ok (c.dbs.live.map fun d => ⟨d.oid, d.name⟩, c') := by
   obtain ⟨c', _, h⟩ := warm_databases (readRows dec) (Spec.fsOf c) c0 hc
-  rw [databasesCold_tree dec hd c hwf _ (treeOf_fsOf c hwf.2.2.2.2.2.1 hplain)] at h
+  rw [databasesCold_tree dec hd c hwf _ (treeOf_fsOf c hwf.2.2.2.2.2.1 hplain hid hnm)] at h
   exact ⟨c', h⟩
 
 theorem expectedRels_eq (d : DbContent) :
@@ -203,12 +210,12 @@ theorem expectedRels_eq (d : DbContent) :
 (`Spec.expectedRels`: every relkind, relfilenode ≠ 0), each once with oid, filenode, name and relkind, in filenode order —
 for every iteration order of the catalog map. -/
 theorem C12_remote_tables_spec (dec : Dec) (hd : CatDec dec) (π : MapOrder TableInfo) (hπ : ∀ l, π l ~ l) (c : Cluster) (hwf : c.WF)
-    (hplain : c.Plain) (oid : Nat) (d : DbContent) (hl : c.content.lookup oid = some d) (c0 : Cache)
+    (hplain : c.Plain) (hid : c.IdentityMapped) (hnm : c.NoFastDefaults) (oid : Nat) (d : DbContent) (hl : c.content.lookup oid = some d) (c0 : Cache)
     (hc : CacheOK (readRows dec) (Spec.fsOf c) c0) :
     ∃ ts c', rcTables (readRows dec) π (Spec.fsOf c) oid c0 = .ok (ts, c') ∧
       ts.map (fun t => (⟨t.oid, t.filenode, t.name, t.kind⟩ : Spec.RelEntry)) = Spec.expectedRels d := by
   obtain ⟨c', _, h⟩ := warm_tables (readRows dec) π (Spec.fsOf c) oid c0 hc
-  rw [tablesCold_tree dec hd π hπ c hwf _ (treeOf_fsOf c hwf.2.2.2.2.2.1 hplain) (rcVersionInt_fsOf c hwf.1 hwf.2.1) oid d hl] at h
+  rw [tablesCold_tree dec hd π hπ c hwf _ (treeOf_fsOf c hwf.2.2.2.2.2.1 hplain hid hnm) (rcVersionInt_fsOf c hwf.1 hwf.2.1) oid d hl] at h
   refine ⟨_, c', h, ?_⟩
   rw [expectedRels_eq, map_map]
   rfl
@@ -216,11 +223,11 @@ theorem C12_remote_tables_spec (dec : Dec) (hd : CatDec dec) (π : MapOrder Tabl
 /-- **Columns.**  For a relation oid `k` of such a database `Columns()` returns the live pg_attribute rows of `k` with
 attnum > 0 in attnum order, each with catalog name, type oid, attnum, attlen, attalign.  The client reads pg_attribute under
 the version written in PG_VERSION, which always names the cluster's layout — no assumption on attstorage here. -/
-theorem C12_remote_columns (dec : Dec) (hd : CatDec dec) (c : Cluster) (hwf : c.WF) (hplain : c.Plain) (oid : Nat) (d : DbContent)
+theorem C12_remote_columns (dec : Dec) (hd : CatDec dec) (c : Cluster) (hwf : c.WF) (hplain : c.Plain) (hid : c.IdentityMapped) (hnm : c.NoFastDefaults) (oid : Nat) (d : DbContent)
     (hl : c.content.lookup oid = some d) (k : Nat) (hk : 0 < k) (c0 : Cache) (hc : CacheOK (readRows dec) (Spec.fsOf c) c0) :
     ∃ c', rcColumns (readRows dec) (Spec.fsOf c) oid k c0 = .ok ((Spec.userAttrs d.att k).map attrInfoOf, c') := by
   obtain ⟨c', _, h⟩ := warm_columns (readRows dec) (Spec.fsOf c) oid k c0 hc
-  rw [columnsCold_tree dec hd c hwf _ (treeOf_fsOf c hwf.2.2.2.2.2.1 hplain) (rcVersionInt_fsOf c hwf.1 hwf.2.1) oid d hl k hk] at h
+  rw [columnsCold_tree dec hd c hwf _ (treeOf_fsOf c hwf.2.2.2.2.2.1 hplain hid hnm) (rcVersionInt_fsOf c hwf.1 hwf.2.1) oid d hl k hk] at h
   exact ⟨c', h⟩
 
 /-- **The same columns under the client's hint and under the dump's automatic choice.**  The client parses pg_attribute
@@ -240,13 +247,13 @@ theorem C12_columns_hint_independent (dec : Dec) (hd : CatDec dec) (c : Cluster)
 `pg_`-prefixed) of a database of the cluster, with the hypotheses of `C01_dump` on the database: `DumpTable(db, r)` returns
 the Spec's table (`Spec.expectedTable` at default options: columns from the catalog join, rows = the live rows of the heap
 file with the values that were stored, RowCount = their number), and `Query(db, r, nil)` returns its rows. -/
-theorem C12_remote_dumpTable (dec : Dec) (hd : CatDec dec) (htot : C10.Rows.TotalDec dec) (c : Cluster) (hwf : c.WF) (hplain : c.Plain)
+theorem C12_remote_dumpTable (dec : Dec) (hd : CatDec dec) (htot : C10.Rows.TotalDec dec) (c : Cluster) (hwf : c.WF) (hplain : c.Plain) (hid : c.IdentityMapped) (hnm : c.NoFastDefaults)
     (oid : Nat) (d : DbContent) (hl : c.content.lookup oid = some d) (hdd : RemoteDumpable d) (r : ClassRow) (hr : r ∈ d.cls.live)
     (hsel : Spec.selectedRel {} r = true) (c0 : Cache) (hc : CacheOK (readRows dec) (Spec.fsOf c) c0) :
     ∃ td c1 c2, rcDumpTable (readRows dec) (Spec.fsOf c) oid (infoOfRel r) c0 = .ok (td, c1) ∧
       normTable td = Spec.expectedTable (varlenaVal dec) d {} r ∧
       rcQuery (readRows dec) (Spec.fsOf c) oid (some (infoOfRel r)) none c0 = .ok (td.rows, c2) := by
-  have htree := treeOf_fsOf c hwf.2.2.2.2.2.1 hplain
+  have htree := treeOf_fsOf c hwf.2.2.2.2.2.1 hplain hid hnm
   have hver := rcVersionInt_fsOf c hwf.1 hwf.2.1
   have hdwf : d.WF c.layout := hwf.2.2.2.2.2.2 (oid, d) (lookup_mem_pair _ _ _ hl)
   obtain ⟨_, _, _, hoid⟩ := dbWF_parts c.layout d hdwf
@@ -266,7 +273,7 @@ theorem C12_remote_dumpTable (dec : Dec) (hd : CatDec dec) (htot : C10.Rows.Tota
   have hspec := dumpTable_spec dec c.layout d {} r (fun fn => Spec.fsOf c (basePath oid fn)) hr hk114 hfn0 hdwf
     (fun _ => htree.heap oid d hl r.filenode h1 h2 h3)
     (fun pages hp _ hne => hdd.readable r hr hsel pages hp hne)
-    (fun pages hp hlo => hdd.inline hlo r hr hsel pages hp) td htd
+    (fun pages hp hlo => hdd.inline hlo r hr hsel pages hp) hdd.nofast td htd
   obtain ⟨c1, _, hw1⟩ := warm_dumpTable (readRows dec) (Spec.fsOf c) oid (infoOfRel r) c0 hc
   obtain ⟨c2, _, hw2⟩ := warm_query (readRows dec) (Spec.fsOf c) oid (some (infoOfRel r)) none c0 hc
   rw [hcold] at hw1
@@ -277,11 +284,11 @@ theorem C12_remote_dumpTable (dec : Dec) (hd : CatDec dec) (htot : C10.Rows.Tota
 database's oid and name and the Spec's tables at default options minus exactly the documented omissions (tables without rows,
 `sql_`-prefixed tables); no tables when the database has no directory. -/
 theorem C12_remote_dumpDatabase (dec : Dec) (hd : CatDec dec) (htot : C10.Rows.TotalDec dec) (π : MapOrder TableInfo)
-    (hπ : ∀ l, π l ~ l) (c : Cluster) (hwf : c.WF) (hplain : c.Plain) (db : DbRow) (hdb : db ∈ c.dbs.live)
+    (hπ : ∀ l, π l ~ l) (c : Cluster) (hwf : c.WF) (hplain : c.Plain) (hid : c.IdentityMapped) (hnm : c.NoFastDefaults) (db : DbRow) (hdb : db ∈ c.dbs.live)
     (hdump : ∀ d, c.content.lookup db.oid = some d → RemoteDumpable d) (c0 : Cache) (hc : CacheOK (readRows dec) (Spec.fsOf c) c0) :
     ∃ D c', rcDumpDatabase (readRows dec) π (Spec.fsOf c) db.oid c0 = .ok (some D, c') ∧
       normDb D = Spec.expectedRemoteDb (varlenaVal dec) db (c.content.lookup db.oid) := by
-  obtain ⟨D, hD, hs⟩ := dumpDatabaseCold_tree dec hd htot π hπ c hwf _ (treeOf_fsOf c hwf.2.2.2.2.2.1 hplain)
+  obtain ⟨D, hD, hs⟩ := dumpDatabaseCold_tree dec hd htot π hπ c hwf _ (treeOf_fsOf c hwf.2.2.2.2.2.1 hplain hid hnm)
     (rcVersionInt_fsOf c hwf.1 hwf.2.1) db hdb hdump
   obtain ⟨c', _, hw⟩ := warm_dumpDatabase (readRows dec) π (Spec.fsOf c) db.oid c0 hc
   rw [hD] at hw
@@ -291,16 +298,16 @@ theorem C12_remote_dumpDatabase (dec : Dec) (hd : CatDec dec) (htot : C10.Rows.T
 `DumpAll()` returns and lists, in pg_database order, every live non-template database — `datistemplate` false, which under
 `htpl` is what the client's name test decides — each as in `C12_remote_dumpDatabase`. -/
 theorem C12_remote_all (dec : Dec) (hd : CatDec dec) (htot : C10.Rows.TotalDec dec) (π : MapOrder TableInfo) (hπ : ∀ l, π l ~ l)
-    (c : Cluster) (hwf : c.WF) (htpl : Spec.TemplatesByName c) (hplain : c.Plain)
+    (c : Cluster) (hwf : c.WF) (htpl : Spec.TemplatesByName c) (hplain : c.Plain) (hid : c.IdentityMapped) (hnm : c.NoFastDefaults)
     (hdump : ∀ db ∈ c.dbs.live, Spec.selectedDb {} db = true → ∀ d, c.content.lookup db.oid = some d →
       DbDumpable c.layout d {} ∧ Spec.A02Free d {})
     (c0 : Cache) (hc : CacheOK (readRows dec) (Spec.fsOf c) c0) :
     ∃ R c', rcDumpAll (readRows dec) π (Spec.fsOf c) c0 = .ok (R, c') ∧
       R.map normDb = (c.dbs.live.filter fun db => !db.isTemplate).map fun db =>
         Spec.expectedRemoteDb (varlenaVal dec) db (c.content.lookup db.oid) := by
-  have htree := treeOf_fsOf c hwf.2.2.2.2.2.1 hplain
+  have htree := treeOf_fsOf c hwf.2.2.2.2.2.1 hplain hid hnm
   obtain ⟨R, hR, hs⟩ := dumpAllLoopCold_tree dec hd htot π hπ c hwf _ htree (rcVersionInt_fsOf c hwf.1 hwf.2.1) htpl
-    (remoteDumpable_of_C01 c hdump) c.dbs.live (fun _ h => h)
+    (remoteDumpable_of_C01 c hdump hnm) c.dbs.live (fun _ h => h)
   obtain ⟨c', _, hw⟩ := warm_dumpAll (readRows dec) π (Spec.fsOf c) c0 hc
   unfold dumpAllCold at hw
   rw [databasesCold_tree dec hd c hwf _ htree] at hw
@@ -315,11 +322,11 @@ table, in pg_database order: the database's name with the names of the Spec's ta
 (ordinary tables, not `pg_`-prefixed, in filenode order — tables WITHOUT rows included, unlike the remote dump) that are
 not `sql_`-prefixed.  Needs none of the heap-level hypotheses (only catalogs are read). -/
 theorem C12_remote_summary (dec : Dec) (hd : CatDec dec) (π : MapOrder TableInfo) (hπ : ∀ l, π l ~ l) (c : Cluster) (hwf : c.WF)
-    (htpl : Spec.TemplatesByName c) (hplain : c.Plain) (val : Spec.Val) (c0 : Cache) (hc : CacheOK (readRows dec) (Spec.fsOf c) c0) :
+    (htpl : Spec.TemplatesByName c) (hplain : c.Plain) (hid : c.IdentityMapped) (hnm : c.NoFastDefaults) (val : Spec.Val) (c0 : Cache) (hc : CacheOK (readRows dec) (Spec.fsOf c) c0) :
     ∃ c', summaryDatabases (readRows dec) π (Spec.fsOf c) c0 =
       .ok ((((c.dbs.live.filter fun db => !db.isTemplate).map fun db => (db.name, summaryNames val db (c.content.lookup db.oid))).filter
         fun e => e.2 ≠ []), c') := by
-  have htree := treeOf_fsOf c hwf.2.2.2.2.2.1 hplain
+  have htree := treeOf_fsOf c hwf.2.2.2.2.2.1 hplain hid hnm
   obtain ⟨per, hper, hs⟩ := summaryLoopCold_tree dec hd π hπ c hwf _ htree (rcVersionInt_fsOf c hwf.1 hwf.2.1) htpl val
     c.dbs.live (fun _ h => h)
   obtain ⟨c', _, hw⟩ := warm_summaryDatabases (readRows dec) π (Spec.fsOf c) c0 hc
@@ -344,15 +351,15 @@ kind, columns, rows and row count (`normDb` blanks the type-name text of type oi
 it with the same function).  The only other difference between the two paths: `R` also lists, with no tables, the live
 non-template databases that have no directory, which DumpDataDir leaves out. -/
 theorem C12_remote_all_vs_directory_dump (dec : Dec) (hd : CatDec dec) (htot : C10.Rows.TotalDec dec) (π π' : MapOrder TableInfo)
-    (hπ : ∀ l, π l ~ l) (hπ' : ∀ l, π' l ~ l) (c : Cluster) (hwf : c.WF) (htpl : Spec.TemplatesByName c) (hplain : c.Plain)
+    (hπ : ∀ l, π l ~ l) (hπ' : ∀ l, π' l ~ l) (c : Cluster) (hwf : c.WF) (htpl : Spec.TemplatesByName c) (hplain : c.Plain) (hid : c.IdentityMapped) (hnm : c.NoFastDefaults)
     (hdump : ∀ db ∈ c.dbs.live, Spec.selectedDb {} db = true → ∀ d, c.content.lookup db.oid = some d →
       DbDumpable c.layout d {} ∧ Spec.A02Free d {})
     (r : DumpResult) (hr : dumpDataDir (readRows dec) π (Spec.fsOf c) {} = .ok (some r)) :
     ∃ R c', rcDumpAll (readRows dec) π' (Spec.fsOf c) Cache.empty = .ok (R, c') ∧
       ((R.filter fun D => (c.content.lookup D.oid).isSome).map normDb) = (r.map normDb).map remoteView ∧
       ∀ D ∈ R, (c.content.lookup D.oid).isNone → D.tables = [] := by
-  obtain ⟨R, c', hR, hs⟩ := C12_remote_all dec hd htot π' hπ' c hwf htpl hplain hdump Cache.empty (C11_cache_empty_ok _ _)
-  have hdir := C01.C01_dump dec hd π hπ c hwf {} htpl hplain hdump r hr
+  obtain ⟨R, c', hR, hs⟩ := C12_remote_all dec hd htot π' hπ' c hwf htpl hplain hid hnm hdump Cache.empty (C11_cache_empty_ok _ _)
+  have hdir := C01.C01_dump dec hd π hπ c hwf {} htpl hplain hid hnm hdump r hr
   refine ⟨R, c', hR, ?_, ?_⟩
   · rw [hdir]
     have hoid : ∀ D : DatabaseDump, (normDb D).oid = D.oid := fun _ => rfl
@@ -396,15 +403,15 @@ theorem C12_remote_all_vs_directory_dump (dec : Dec) (hd : CatDec dec) (htot : C
 /-- **With the model of the real value decoder**: `C12_remote_all_vs_directory_dump` instantiated with the composed model of
 types.go:DecodeType (`rowsDec X`), for which both decoder hypotheses are theorems. -/
 theorem C12_remote_all_vs_directory_dump_real (X : PgVerif.Proofs.Entry.Render) (π π' : MapOrder TableInfo)
-    (hπ : ∀ l, π l ~ l) (hπ' : ∀ l, π' l ~ l) (c : Cluster) (hwf : c.WF) (htpl : Spec.TemplatesByName c) (hplain : c.Plain)
+    (hπ : ∀ l, π l ~ l) (hπ' : ∀ l, π' l ~ l) (c : Cluster) (hwf : c.WF) (htpl : Spec.TemplatesByName c) (hplain : c.Plain) (hid : c.IdentityMapped) (hnm : c.NoFastDefaults)
     (hdump : ∀ db ∈ c.dbs.live, Spec.selectedDb {} db = true → ∀ d, c.content.lookup db.oid = some d →
       DbDumpable c.layout d {} ∧ Spec.A02Free d {}) :
     ∃ r R c', dumpDataDir (readRows (C10.Entry.rowsDec X)) π (Spec.fsOf c) {} = .ok (some r) ∧
       rcDumpAll (readRows (C10.Entry.rowsDec X)) π' (Spec.fsOf c) Cache.empty = .ok (R, c') ∧
       ((R.filter fun D => (c.content.lookup D.oid).isSome).map normDb) = (r.map normDb).map remoteView := by
-  obtain ⟨r, hr, _⟩ := C01.C01_dump_real X π hπ c hwf {} htpl hplain hdump
+  obtain ⟨r, hr, _⟩ := C01.C01_dump_real X π hπ c hwf {} htpl hplain hid hnm hdump
   obtain ⟨R, c', hR, hs, _⟩ := C12_remote_all_vs_directory_dump _ (catDec_rowsDec X) (C10.Entry.rowsDec_total X) π π' hπ hπ' c hwf
-    htpl hplain hdump r hr
+    htpl hplain hid hnm hdump r hr
   exact ⟨r, R, c', hr, hR, hs⟩
 
 /-! ### non-vacuity: the example cluster of Props/C01.lean satisfies every hypothesis -/
